@@ -324,6 +324,22 @@ def norm(s: str) -> str:
     return s
 
 
+def _const_defaults(e: Any) -> dict:
+    """parameter -> constant default of the single repository callee of a call event"""
+    if len(e.targets) != 1 or e.targets[0].kind != "repo" or e.targets[0].func is None:
+        return {}
+    a = e.targets[0].func.node.args
+    out = {}
+    pos = a.posonlyargs + a.args
+    for p_, d in zip(pos[len(pos) - len(a.defaults):], a.defaults):
+        if isinstance(d, ast.Constant):
+            out[p_.arg] = ("const", d.value)
+    for p_, d in zip(a.kwonlyargs, a.kw_defaults):
+        if isinstance(d, ast.Constant):
+            out[p_.arg] = ("const", d.value)
+    return out
+
+
 def skeleton(prog: Program, p: SymPath) -> tuple:
     """effect skeleton of a path: branch literals and impure events, awaits erased"""
     out = []
@@ -339,12 +355,18 @@ def skeleton(prog: Program, p: SymPath) -> tuple:
             if e.pure:
                 continue
             label = e.label
-            args = [show(a) for a in e.args] + [f"{k}={show(v)}" for k, v in sorted(e.kwargs.items())]
+            # (an argument spelled out with the value the callee's parameter defaults to is the argument left out)
+            dflt = _const_defaults(e)
+            args = [show(a) for a in e.args] + [f"{k}={show(v)}" for k, v in sorted(e.kwargs.items()) if not (k in dflt and dflt[k] == v)]
             # declared asymmetry 1: attempt timeout  -  asyncio.wait_for(func(), timeout=t)  ~  _call_with_timeout(func, t)
             if label == "lib:asyncio.wait_for":
                 label, args = "operation-with-timeout", [show(e.kwargs.get("timeout", e.args[1] if len(e.args) > 1 else None))]
             elif label.endswith(":_call_with_timeout"):
-                label, args = "operation-with-timeout", [show(e.args[1]) if len(e.args) > 1 else ""]
+                # the timeout: second positional argument, or by the name of the callee's second parameter
+                tgt0 = e.targets[0].func if e.targets and e.targets[0].func is not None else None
+                pnames = tgt0.param_names() if tgt0 is not None else []
+                tv = e.args[1] if len(e.args) > 1 else (e.kwargs.get(pnames[1]) if len(pnames) > 1 else None)
+                label, args = "operation-with-timeout", [show(tv) if tv is not None else ""]
             elif label == "callback:operation" and not e.args:
                 label = "operation"
             # declared asymmetry 2: the async twin awaits awaitable sleeper results through _call_async_sleeper
@@ -412,6 +434,7 @@ def twin_raises(ev, cfg):
 def twins(rep: Report, prog: Program) -> None:
     rep.rule("R12.1", "sync/async twins: after erasing await/async and applying the declared renamings, every twin pair has the same set of effect skeletons (branch literals, impure events with their arguments, raised kinds, exits) on all paths including handler paths")
     pairs = list(TWINS)
+    inline_pred = engine(prog).inline
     for a, b in TWIN_CLASSES:
         ca, cb = prog.cls(a), prog.cls(b)
         names = sorted(set(ca.methods) | set(cb.methods))
@@ -422,6 +445,11 @@ def twins(rep: Report, prog: Program) -> None:
                 continue
             if ma in ca.methods and mb in cb.methods:
                 pairs.append((ca.methods[ma].qual, cb.methods[mb].qual))
+            elif m.startswith("_") and not m.startswith("__") and (inline_pred is not None and inline_pred((ca.methods.get(ma) or cb.methods.get(mb)))):
+                # a private helper one twin extracted for itself: it has no behaviour of its own - the path engine reads
+                # it through wherever that twin calls it, and the comparison of the callers covers it
+                rep.instance("R12.1", f"private-helper-of-one-twin|{a}.{m}")
+                rep.ok("R12.1")
             else:
                 rep.instance("R12.1", f"method-missing|{a}.{m}")
                 rep.fail("R12.1", f"method-missing|{a.split(':')[1]}.{m}", f"method `{m}` exists in only one of {a} / {b}", where=f"{ca.module.relpath}:{ca.node.lineno}", function=a)
